@@ -210,6 +210,17 @@ pub fn damage_bucket_bytes(cur: &[u8], dmg: &BDamage) -> Vec<u8> {
             }
         }
         BDamage::BecomeDir => {}
+        BDamage::GarbageTail { total, line, salt } => {
+            let line = (*line).max(1);
+            let mut k = 0u64;
+            let start = b.len();
+            while b.len() - start < *total {
+                b.push(b'\n');
+                let g = garbage(line.min(*total), salt.wrapping_add(k));
+                b.extend(g.iter().map(|&c| if c == b'\n' { 0xfe } else { c }));
+                k += 1;
+            }
+        }
         BDamage::CrBeforeLf(n) => {
             // the first LF starts the first record (nothing before it): use later ones
             if lf_positions.len() >= 2 {
